@@ -232,35 +232,50 @@ func (ch *channel) ReceiveAsync(ctx async.Context) ([]byte, bool, status.Status)
 	s := ch.acquire()
 	defer ch.release()
 
+	// Send a window delta which a previous receive could not send
+	if s.recvBytes.Load() > 0 {
+		ch.sendWindowDelta(ctx, s)
+	}
+
 	// Read next message
 	data, ok, st := s.recvQueue.Read()
 	if !ok || !st.OK() {
 		return nil, ok, st
 	}
 
-	// Increment received
-	size := int32(len(data))
-	recv := s.recvBytes.Add(size)
+	// Increment received, send window delta when window/2 reached
+	s.recvBytes.Add(int32(len(data)))
+	ch.sendWindowDelta(ctx, s)
 
-	// Check window/2 reached
+	// The message has been taken from the queue, return it in any case
+	return data, true, status.OK
+}
+
+// sendWindowDelta sends the received bytes as a window delta when they reach window/2.
+//
+// The delta is kept when it cannot be sent, i.e. when the context is cancelled or timed out
+// while the write queue is full. It is sent by the next receive then, otherwise the sender
+// would never get the window back.
+func (ch *channel) sendWindowDelta(ctx async.Context, s *channelState) {
+	recv := s.recvBytes.Load()
 	if recv < s.initWindow/2 {
-		return data, true, status.OK
+		return
 	}
 
 	// Decrement bytes, send window delta
 	s.recvBytes.Add(-recv)
-	if !s.closed.Load() {
-		st := s.sender.sendWindow(ctx, recv)
-		switch st.Code {
-		case status.CodeOK,
-			status.CodeCancelled,
-			status.CodeClosed,
-			status.CodeEnd:
-		default:
-			return nil, false, st // unreachable
-		}
+	if s.closed.Load() {
+		return
 	}
-	return data, true, status.OK
+
+	st := s.sender.sendWindow(ctx, recv)
+	switch st.Code {
+	case status.CodeOK,
+		status.CodeClosed,
+		status.CodeEnd:
+	default:
+		s.recvBytes.Add(recv)
+	}
 }
 
 // ReceiveWait returns a channel that is notified on a new message, or a channel close.
